@@ -147,7 +147,7 @@ def run(cx):
         "RGBLed": (cls["RGBLedOn"](name="dev", red=1, green=2, blue=3), lambda c: callee(c) == "analogWrite" and show(call_args(c)[0]) in ("3", "5", "6"), lambda c: show(c) in ("pinMode(3, 1)", "pinMode(5, 1)", "pinMode(6, 1)")),
         "Servo": (cls["ServoWrite"](name="dev", angle="H_a"), lambda c: callee(c) == "write" and show(receiver(c)) == "__servo_dev", lambda c: callee(c) == "attach" and show(receiver(c)) == "__servo_dev"),
         "DCMotor": (cls["DCMotorSetSpeed"](name="dev", speed="H_s"), lambda c: callee(c) == "analogWrite" and show(call_args(c)[0]) == "9" and show(call_args(c)[1]) != "0", lambda c: show(c) in ("pinMode(2, 1)", "pinMode(4, 1)", "pinMode(9, 1)")),
-        "Button": (cls["ButtonPoll"](name="dev"), lambda c: callee(c) == "digitalRead" and False, lambda c: show(c) == "pinMode(7, 2)"),
+        "Button": (cls["ButtonPoll"](name="dev"), lambda c: callee(c) == "digitalRead" and show(call_args(c)[0]) == "7", lambda c: show(c) == "pinMode(7, 2)"),
         "Potentiometer": (cls["VarAssign"](name="v", expr="analogRead(A0)"), lambda c: callee(c) == "analogRead", lambda c: show(c) == "pinMode(14, 0)"),
         "Ultrasonic": (cls["ExprStmt"](expr="__redu_ultrasonic_measure_dev()"), lambda c: callee(c) == "__redu_ultrasonic_measure_dev", lambda c: show(c) in ("pinMode(10, 1)", "pinMode(11, 0)")),
         "Buzzer": (cls["BuzzerPlayTone"](name="dev", frequency="H_f", duration_ms=None), lambda c: callee(c) in ("tone", "noTone"), lambda c: show(c) == "pinMode(7, 1)"),
@@ -234,6 +234,10 @@ def run(cx):
         r.check(okl, "emit/loop-lines-from-_emit_block(in_setup=False)", (em, c), f"`{stmt_key(c)}`")
     st_ext = [c for c in walk_local(ef) if isinstance(c, ast.Call) and norm(c.func) == "setup_lines.extend"]
     r.check(len(st_ext) == 1 and norm(kwarg(st_ext[0].args[0], "in_setup") or ast.Constant(0)) == "True" and norm(st_ext[0].args[0].args[0]) == "setup_body or []", "emit/setup-lines-from-_emit_block(setup_body,in_setup=True)", (em, ef), "setup() statements must come from _emit_block(setup_body, in_setup=True)")
+
+    # ---- C05-EXTENT (shared with C07): where the `while True:` body ends decides what runs once and what runs per pass ----
+    from . import c07
+    c07.rule_extent(cx, "C05-EXTENT")
 
     # ---- C05-ONCE ----------------------------------------------------------------------------
     r = cx.rule("C05-ONCE", "setup statements appear once in setup() and loop statements once in loop(), in order; injected polls precede ticks precede user statements", floor=4)
